@@ -84,7 +84,7 @@ var (
 		Secs: map[int]int{SecY: 2, SecCall: 2, SecAsgCall: 1, SecAsgKind: 2, SecDiv: 2, SecIdx: 2, SecNil: 2, SecUnknown: 2, SecArg: 2,
 			SecIfKind: 2, SecIfIdx: 2, SecIfNil: 2, SecElif: 2, SecForKind: 2, SecForStep: 1, SecUnb: 1, SecUnbCont: 1, SecConc: 2, SecIfCall: 2, SecForRange: 2, SecMapIdx: 2, SecSetKind: 2, SecSetNil: 2, SecThreeNil: 2, SecIfThreeNil: 2, SecArgCount: 1, SecNilMapSet: 2, SecFuncCall: 2, SecIfFunc: 2, SecThreeSet: 2},
 		MaxSecs: 4, Rets: []int{RetNone, RetNestedV, RetKind, RetTopKind, RetTop, RetUnexp},
-		FaultPct: 75, GatePct: 10, RetPct: 50, MinCalls: 4, MaxCalls: 12, UnknownNamePct: 15, BadNMPct: 15,
+		FaultPct: 75, GatePct: 10, RetPct: 50, MinCalls: 4, MaxCalls: 12, UnknownNamePct: 15, BadNMPct: 15, LongHistPct: 3,
 	}
 	ProfC11 = &Profile{
 		Methods:  allEngineMethods,
@@ -141,7 +141,7 @@ var (
 	}
 	ProfC06 = &Profile{
 		MinRules: 1, MaxRules: 4, SalSpan: 1,
-		Secs:    map[int]int{SecY: 4, SecEcho: 4, SecOpt: 3, SecCall: 1},
+		Secs:    map[int]int{SecY: 4, SecEcho: 4, SecOpt: 3, SecCall: 1, SecLocal: 2, SecReader: 1, SecIfNil: 1, SecIfKind: 1},
 		MaxSecs: 4, Rets: []int{RetNone, RetReq, RetReq, RetNestedV},
 		FaultPct: 20, GatePct: 60, RetPct: 70, UnknownNamePct: 10, BadNMPct: 5,
 	}
@@ -165,7 +165,9 @@ var (
 	clShared    = []string{"foreign-request-data", "stray-event", "unscheduled-rule-ran", "ran-more-than-once"}
 	clCapacity  = []string{"more-than-max-in-flight", "request-did-not-wait", "pool-capacity-lost", "mgmt-panic", "waiter-not-served-although-instance-free"}
 	clIsolation = []string{"foreign-request-data", "stale-injected-key-visible", "result-map-modified-after-return", "request-data-modified-after-return",
-		"stray-event", "unscheduled-rule-ran", "event-after-return", "result-map"}
+		"stray-event", "unscheduled-rule-ran", "event-after-return", "result-map",
+		// a rule's locals are part of the request: what an earlier request left in a local must not reach a later one
+		"unassigned-local-visible", "local-changed-by-other-execution"}
 )
 
 func w2(opt *W2Opt) func(plan, sched *simrt.Source, trace bool) *RunOut {
@@ -189,7 +191,7 @@ var c19Scenarios = []func(plan, sched *simrt.Source, trace bool) *RunOut{
 	w2(&W2Opt{Prof: ProfC07, Methods: cat(allEngineMethods, []int{MPoolEMMulti, MPoolSelEM}), MaxClients: 4, MaxReqs: 4, Admins: 2, MaxMgmt: 3,
 		MgmtKinds: []int{OpFull, OpIncr, OpIncr, OpRemove, OpClear, OpSetEM}, InvalidPct: 10, UpdFromRule: true}),
 	w2(&W2Opt{Prof: ProfC17, Methods: allEngineMethods, MaxClients: 6, MaxReqs: 4, FinalProbe: true, WaiterRound: true, NilTagPct: 30}),
-	w2(&W2Opt{Prof: ProfC06, Methods: allEngineMethods, MaxClients: 5, MaxReqs: 5, OptPct: 50}),
+	w2(&W2Opt{Prof: ProfC06, Methods: allEngineMethods, MaxClients: 5, MaxReqs: 5, OptPct: 50, Prelude: true}),
 	w2(&W2Opt{Prof: ProfC05, Methods: stagedMethods, MaxClients: 3, MaxReqs: 3}),
 	w2(&W2Opt{Prof: ProfC13, Methods: []int{MDAG}, MaxClients: 3, MaxReqs: 3}),
 	w2(&W2Opt{Prof: ProfC18, Methods: []int{MExecute, MConcurrent, MMix, MDAG, MPoolEMMulti}, MaxClients: 3, MaxReqs: 3}),
@@ -275,7 +277,7 @@ func init() {
 		FinalProbe: true, WaiterRound: true, NilTagPct: 40, Admins: 1, MaxMgmt: 3, MgmtKinds: []int{OpClear, OpClear, OpFull, OpIncr}, InvalidPct: 10, Restore: true, BigPools: true,
 		Oracle: OracleC17})})
 	register(&PropDef{ID: "C06", Clauses: set(clIsolation, clContain), Run: w2(&W2Opt{Prof: ProfC06, Methods: cat(allEngineMethods, []int{MPoolEM, MPoolEMMulti, MPoolSelEM}), MaxClients: 5, MaxReqs: 5,
-		OptPct: 50, Oracle: OracleC06})})
+		OptPct: 50, Prelude: true, Oracle: OracleC06})})
 	register(&PropDef{ID: "C07", Clauses: set(clVersions, clContain), Run: w2(&W2Opt{Prof: ProfC07, Methods: cat(allEngineMethods, []int{MPoolEMMulti, MPoolSelEM, MPoolEM, MPoolEM}), MaxClients: 4, MaxReqs: 4,
 		Admins: 2, MaxMgmt: 3, MgmtKinds: []int{OpFull, OpIncr, OpIncr, OpRemove}, InvalidPct: 15, UpdFromRule: true, Oracle: OracleC07})})
 	register(&PropDef{ID: "C16", Clauses: set(clPoolMgmt, clSpec, clContain), Run: func(plan, sched *simrt.Source, trace bool) *RunOut {
